@@ -3,6 +3,7 @@
 package graph
 
 import (
+	"bytes"
 	"encoding/json"
 	"math/rand"
 )
@@ -25,6 +26,23 @@ type G struct {
 
 // New returns an empty graph.
 func New() *G { return &G{ids: map[string]int{}, Init: -1} }
+
+// canon re-renders JSON with sorted object keys: TLC does not always print the
+// fields of a record in the same order, and the same state must get one id.
+func canon(s json.RawMessage) json.RawMessage {
+	if !bytes.Contains(s, []byte("{")) {
+		return s
+	}
+	var v any
+	if err := json.Unmarshal(s, &v); err != nil {
+		return s
+	}
+	b, err := json.Marshal(v)
+	if err != nil {
+		return s
+	}
+	return b
+}
 
 func (g *G) id(s json.RawMessage) int {
 	k := string(s)
@@ -50,6 +68,7 @@ func (g *G) AddEdgeJSON(line string) error {
 	if err := json.Unmarshal([]byte(line), &e); err != nil {
 		return err
 	}
+	e.From, e.To = canon(e.From), canon(e.To)
 	f, t := g.id(e.From), g.id(e.To)
 	g.Edges = append(g.Edges, Edge{From: f, To: t, Act: e.Act, ToState: e.To})
 	g.Out[f] = append(g.Out[f], len(g.Edges)-1)
